@@ -26,3 +26,98 @@ Example faults_nonvacuous :
   map (fun k => rr_exit (run_patch ex_opts [] (ex_world (Some k)))) [0; 1; 2; 3; 4; 5] = [2; 2; 2; 2; 2; 0] /\
   map (fun k => fault (rr_world (run_patch ex_opts [] (ex_world (Some k))))) [0; 4; 5] = [None; None; Some 0].
 Proof. vm_compute. repeat split; reflexivity. Qed.
+
+(* ===== merged from Properties_FaultsRun.v ===== *)
+From PatchV Require Import Base Lines Hunk Options World Driver Proofs_Faults Proofs_FaultsRun Proofs_FaultsPrefix.
+
+Theorem unreached_fault_is_invisible_gen : forall o stdin w1 w2,
+  same_but_fault w1 w2 -> fault w2 = None ->
+  fault (rr_world (run_patch o stdin w1)) <> None ->
+  rr_exit (run_patch o stdin w1) = rr_exit (run_patch o stdin w2) /\
+  rr_events (run_patch o stdin w1) = rr_events (run_patch o stdin w2) /\
+  same_but_fault (rr_world (run_patch o stdin w1)) (rr_world (run_patch o stdin w2)).
+Proof. exact Proofs_FaultsRun.unreached_fault_is_invisible_gen. Qed.
+Print Assumptions unreached_fault_is_invisible_gen.
+
+Theorem unreached_fault_is_invisible : forall o stdin w k k',
+  fault w = Some k -> fault (rr_world (run_patch o stdin w)) = Some k' ->
+  rr_exit (run_patch o stdin w) = rr_exit (run_patch o stdin (clear_fault w)) /\
+  rr_events (run_patch o stdin w) = rr_events (run_patch o stdin (clear_fault w)) /\
+  clear_fault (rr_world (run_patch o stdin w)) = rr_world (run_patch o stdin (clear_fault w)) /\
+  k' + length (trace (rr_world (run_patch o stdin w))) = k + length (trace w).
+Proof. exact Proofs_FaultsRun.unreached_fault_is_invisible. Qed.
+Print Assumptions unreached_fault_is_invisible.
+
+Theorem success_means_no_failure_hit : forall o stdin w,
+  rr_exit (run_patch o stdin w) <> 2 ->
+  (fault w = None -> fault (rr_world (run_patch o stdin w)) = None) /\
+  (forall k, fault w = Some k ->
+     exists k', fault (rr_world (run_patch o stdin w)) = Some k' /\
+                k' + length (trace (rr_world (run_patch o stdin w))) = k + length (trace w)).
+Proof. exact Proofs_FaultsRun.success_means_no_failure_hit. Qed.
+Print Assumptions success_means_no_failure_hit.
+
+Theorem success_is_the_fault_free_run : forall o stdin w,
+  rr_exit (run_patch o stdin w) <> 2 ->
+  rr_exit (run_patch o stdin w) = rr_exit (run_patch o stdin (clear_fault w)) /\
+  rr_events (run_patch o stdin w) = rr_events (run_patch o stdin (clear_fault w)) /\
+  clear_fault (rr_world (run_patch o stdin w)) = rr_world (run_patch o stdin (clear_fault w)).
+Proof. exact Proofs_FaultsRun.success_is_the_fault_free_run. Qed.
+Print Assumptions success_is_the_fault_free_run.
+
+Theorem success_tree_is_fault_free_tree : forall o stdin w,
+  rr_exit (run_patch o stdin w) <> 2 ->
+  fs (rr_world (run_patch o stdin w)) = fs (rr_world (run_patch o stdin (clear_fault w))) /\
+  trace (rr_world (run_patch o stdin w)) = trace (rr_world (run_patch o stdin (clear_fault w))) /\
+  stdout_data (rr_world (run_patch o stdin w)) = stdout_data (rr_world (run_patch o stdin (clear_fault w))).
+Proof. exact Proofs_FaultsRun.success_tree_is_fault_free_tree. Qed.
+Print Assumptions success_tree_is_fault_free_tree.
+
+(* the example of Properties_C10.v: the fault-free run performs 5 operations; a failure scheduled as the 6th (Some 5) or
+   later (Some 7) is not reached: the hypotheses hold, the exit status is 0, the countdown ends at 0 resp. 2 and the
+   world is the fault-free one (f holds "b\n", f.orig holds "a\n") *)
+Example unreached_nonvacuous :
+  clear_fault (ex_world (Some 7)) = ex_world None /\
+  fault (rr_world (run_patch ex_opts [] (ex_world (Some 5)))) = Some 0 /\
+  fault (rr_world (run_patch ex_opts [] (ex_world (Some 7)))) = Some 2 /\
+  rr_exit (run_patch ex_opts [] (ex_world (Some 7))) = 0 /\
+  clear_fault (rr_world (run_patch ex_opts [] (ex_world (Some 7)))) = rr_world (run_patch ex_opts [] (ex_world None)) /\
+  lookup (fs (rr_world (run_patch ex_opts [] (ex_world (Some 7))))) (bs "f") = Some (Reg (bs "b" ++ nlb) 420) /\
+  lookup (fs (rr_world (run_patch ex_opts [] (ex_world (Some 7))))) (bs "f.orig") = Some (Reg (bs "a" ++ nlb) 420).
+Proof. vm_compute. repeat split; reflexivity. Qed.
+
+(* the theorem instantiated on it *)
+Example unreached_instance :
+  rr_exit (run_patch ex_opts [] (ex_world (Some 7))) = rr_exit (run_patch ex_opts [] (ex_world None)) /\
+  rr_events (run_patch ex_opts [] (ex_world (Some 7))) = rr_events (run_patch ex_opts [] (ex_world None)) /\
+  clear_fault (rr_world (run_patch ex_opts [] (ex_world (Some 7)))) = rr_world (run_patch ex_opts [] (ex_world None)) /\
+  2 + length (trace (rr_world (run_patch ex_opts [] (ex_world (Some 7))))) = 7 + 0.
+Proof.
+  assert (K' : fault (rr_world (run_patch ex_opts [] (ex_world (Some 7)))) = Some 2) by (vm_compute; reflexivity).
+  exact (unreached_fault_is_invisible ex_opts [] (ex_world (Some 7)) 7 2 eq_refl K').
+Qed.
+
+(* a reached failure (Some 3: the write of f) is visible: status 2, and the tree differs from the fault-free one
+   (f has been renamed to f.orig and not rewritten): the hypothesis "not reached" cannot be dropped *)
+Example reached_is_visible :
+  rr_exit (run_patch ex_opts [] (ex_world (Some 3))) = 2 /\
+  fault (rr_world (run_patch ex_opts [] (ex_world (Some 3)))) = None /\
+  lookup (fs (rr_world (run_patch ex_opts [] (ex_world (Some 3))))) (bs "f") = None /\
+  lookup (fs (rr_world (run_patch ex_opts [] (ex_world (Some 3))))) (bs "f.orig") = Some (Reg (bs "a" ++ nlb) 420).
+Proof. vm_compute. repeat split; reflexivity. Qed.
+
+(* a run that reached the injected failure ends with status 2 and the operations it performed (the failing one included)
+   are the first operations of the fault-free run *)
+Theorem reached_fault_trace_is_prefix : forall o stdin w,
+  fault w <> None -> fault (rr_world (run_patch o stdin w)) = None ->
+  rr_exit (run_patch o stdin w) = 2 /\
+  exists l, trace (rr_world (run_patch o stdin (clear_fault w))) = trace (rr_world (run_patch o stdin w)) ++ l.
+Proof. exact Proofs_FaultsPrefix.reached_fault_trace_is_prefix. Qed.
+Print Assumptions reached_fault_trace_is_prefix.
+
+Example reached_prefix_instance :
+  trace (rr_world (run_patch ex_opts [] (ex_world (Some 3)))) =
+    [OOpenRead (bs "p.diff"); OOpenRead (bs "f"); ORename (bs "f") (bs "f.orig"); OWrite (bs "f") (bs "b" ++ nlb)] /\
+  trace (rr_world (run_patch ex_opts [] (ex_world None))) =
+    trace (rr_world (run_patch ex_opts [] (ex_world (Some 3)))) ++ [OChmod (bs "f") 420].
+Proof. vm_compute. split; reflexivity. Qed.
